@@ -121,6 +121,14 @@ def audit(theorems, files):
     return len(theorems), discharged, problems, details
 
 
+def leanchecker(module):
+    """replay the compiled module through Lean's independent checker; 'ok' or the tail of its output"""
+    if not shutil.which("leanchecker"):
+        return "ok (leanchecker not installed: skipped)"
+    r = sh(["lake", "env", "leanchecker", module], cwd=LEAN)
+    return "ok" if r.returncode == 0 else (r.stdout or "")[-400:]
+
+
 # ------------------------------------------------------------------------------------------ C++ side
 def cfg_hash(cfg):
     return hashlib.sha256(cfg.key().encode()).hexdigest()[:12]
